@@ -928,3 +928,14 @@ Example net_if_addrs_example :
   forallb wf_ifa [ifa_ib] = true /\
   map n_addr (spec_if_rows [ifa_ib]) = [bs "80:00:00:48:fe:80:00:00:00:00:00:00:00:02:c9:03:00:10:11:12"].
 Proof. vm_compute. auto. Qed.
+
+(* ================================================================ sequences of calls in one process *)
+Lemma entry_seq_no_ub calls : forallb (fun r => negb (is_ub r)) (c_entry_seq true calls) = true.
+Proof.
+  unfold c_entry_seq. induction calls as [|c calls IH]; [reflexivity|]. cbn [map forallb].
+  rewrite IH, andb_true_r. pose proof (entry_no_ub (fst c) (snd c)) as H. unfold c_entry in H. now rewrite H.
+Qed.
+
+Lemma entry_seq_independent pre calls post :
+  c_entry_seq true (pre ++ calls ++ post) = c_entry_seq true pre ++ c_entry_seq true calls ++ c_entry_seq true post.
+Proof. unfold c_entry_seq. now rewrite !map_app. Qed.
